@@ -707,6 +707,19 @@ def run(ctx, res):
                        "the number of ':'-separated fields is a free integer >= 1", "two lines per batch are followed (the loop body is the same for every line)"]
     res.not_decided = ["TCP behaviour and thread scheduling", "the unescape side (not in the repository)"]
     part_a(facts, res)
+    # the dispatch rules read the code's string comparisons through terms of the form field k of (line split at ':'); when the
+    # code compares something else (a term this rule does not follow), the dispatch verdicts are not decidable - never findings
+    odd = []
+    for (term, text) in strmodel.eq_vars():
+        okt = isinstance(term, tuple) and len(term) == 3 and term[0] == "field" and isinstance(term[1], tuple) and term[1][0] == "split" \
+            and isinstance(term[1][1], tuple) and term[1][1][:1] == ("msg",) and term[1][2] == 58
+        if not okt:
+            odd.append((term, text))
+    if odd:
+        moved = [f_ for f_ in res.findings if f_["key"].startswith("dispatch|")]
+        res.findings = [f_ for f_ in res.findings if not f_["key"].startswith("dispatch|")]
+        res.errors.append("control lines are compared through terms this rule does not follow (%r ...): the dispatch rules are not decidable%s"
+                          % (odd[0], (" (suppressed: %s)" % ", ".join(f_["key"] for f_ in moved[:4])) if moved else ""))
     part_b(facts, res)
     part_c(facts, res)
     res.distinct = 3
